@@ -460,6 +460,9 @@ def _has_exact_specifier(marker: MarkerExpression) -> bool:
     if marker.op == "===":
         # arbitrary equality compares strings; its operand must not be padded or ordered
         return False
+    if marker.op not in ("in", "not in") and ("," in marker.value or "|" in marker.value):
+        # the operand of a comparison is one version, not a specifier expression
+        return False
     try:
         marker.specifier
     except UnparsableSpecifier:
